@@ -132,7 +132,13 @@ func c17SemExec(in c17SemIn, emit func(c17SemStep)) (desync bool) {
 				T -= d
 			} else if d < 0 {
 				if -d > snap.Size {
-					doomed++
+					// x/sync: a request above size is granted if it fits right now (only possible
+					// when cur is negative), otherwise it never enters the queue and blocks for ever
+					if snap.Size-snap.Cur >= -d && len(snap.Waiters) == 0 {
+						T += -d
+					} else {
+						doomed++
+					}
 				} else {
 					T += -d
 					push = 'S'
